@@ -184,6 +184,77 @@ func c19DocsAssets(c *Ctx, binEnv string, rounds int, raceBase string, done chan
 					"the bytes served for Accept-Encoding: identity", fmt.Sprintf("Content-Encoding %q, %d body bytes: %s", ce, len(res.Body), v))
 			}
 		})
+		// byte ranges of the same files, again many at once: a 206 must carry exactly the bytes its own Content-Range
+		// names, a 200 the whole file, anything else must be a refusal (4xx)
+		rrng := c.RNG.Fork(uint64(7100 + round))
+		type rangeReq struct{ path, hdr string }
+		var rr []rangeReq
+		for i := 0; i < 96; i++ {
+			p := live[i%len(live)]
+			n := len(ref[p])
+			a := rrng.Intn(n + n/8 + 1)
+			b := a + rrng.Intn(n-a%n)
+			h := fmt.Sprintf("bytes=%d-%d", a, b)
+			switch rrng.Intn(6) {
+			case 0:
+				h = fmt.Sprintf("bytes=%d-", a)
+			case 1:
+				h = fmt.Sprintf("bytes=-%d", 1+rrng.Intn(n+10))
+			case 2:
+				h = fmt.Sprintf("bytes=%d-%d,%d-%d", a, b, 0, 9)
+			}
+			rr = append(rr, rangeReq{p, h})
+		}
+		monParallel(len(rr), len(rr), func(i int) {
+			k := rr[i]
+			ctx, cancel := context.WithTimeout(context.Background(), 60*time.Second)
+			defer cancel()
+			req, _ := http.NewRequestWithContext(ctx, "GET", "http://"+srv.addr+k.path, nil)
+			req.Header.Set("Accept-Encoding", "identity")
+			req.Header.Set("Range", k.hdr)
+			resp, err := srv.client.Do(req)
+			r.Eval(1)
+			cas := map[string]any{"path": k.path, "range": k.hdr, "round": round}
+			if err != nil {
+				r.Violate("C19|docs-asset|incomplete-response|range", "a byte-range request for a documentation asset is not answered with a complete response", "none", cas, "a complete response", err.Error())
+				return
+			}
+			body, rerr := io.ReadAll(resp.Body)
+			resp.Body.Close()
+			if rerr != nil {
+				r.Violate("C19|docs-asset|incomplete-response|range", "a byte-range request for a documentation asset is not answered with a complete response", "none", cas, "a complete response", rerr.Error())
+				return
+			}
+			r.Count("docs_asset_range_responses", 1)
+			full := ref[k.path]
+			switch {
+			case resp.StatusCode == 429 || resp.StatusCode >= 400 && resp.StatusCode < 500:
+				r.Count("docs_asset_range_refused", 1)
+			case resp.StatusCode == 200 && resp.Header.Get("Content-Encoding") == "":
+				if !bytes.Equal(body, full) {
+					r.Violate("C19|docs-asset|body-corrupt|range-200", "a documentation asset answered 200 to a range request does not carry the file", "none", cas, fmt.Sprintf("the %d bytes of the file", len(full)), fmt.Sprintf("%d other bytes", len(body)))
+				}
+				r.Count("docs_asset_range_whole_file", 1)
+			case resp.StatusCode == 206 && resp.Header.Get("Content-Encoding") == "":
+				var a, b, total int
+				if n, _ := fmt.Sscanf(resp.Header.Get("Content-Range"), "bytes %d-%d/%d", &a, &b, &total); n != 3 {
+					r.Count("docs_asset_range_multipart_or_unparsed", 1)
+					return
+				}
+				if total != len(full) || a < 0 || b < a || b >= len(full) || !bytes.Equal(body, full[a:b+1]) {
+					r.Violate("C19|docs-asset|body-corrupt|range-206", "a partial response for a documentation asset does not carry the bytes its own Content-Range names", "none", cas,
+						fmt.Sprintf("bytes %s of the %d-byte file", resp.Header.Get("Content-Range"), len(full)), fmt.Sprintf("%d bytes that differ", len(body)))
+					return
+				}
+				r.Count("docs_asset_range_exact", 1)
+				r.Nontrivial("docs-range|" + k.path + "|" + k.hdr)
+			default:
+				r.Count("docs_asset_range_other_status", 1)
+				if resp.StatusCode >= 500 {
+					r.Violate("C19|docs-asset|status|range-"+fmt.Sprint(resp.StatusCode), "a byte-range request for a documentation asset is answered with a server error", "none", cas, "206, 200 or a 4xx refusal", fmt.Sprintf("%d %.200q", resp.StatusCode, body))
+				}
+			}
+		})
 		r.Count("docs_asset_rounds", 1)
 	}
 	if !srv.alive() {
